@@ -13,9 +13,10 @@ import GmqttVerif.Proofs.Fed.LocalSubs
   `peer.initStream` / `stream.sendEvents` / `stream.readLoop` drive it; R's side is `sessionMgr.add`, `lruCache`,
   `eventStreamHandler` and the receive loop of `EventStream` (`Model/Fed/PeerSession.lean`, stream `fedsession`);
   the channel is two FIFO buffers.  A *schedule* is any list of environment steps
-  `emit | setRetained | fetchSend | deliver ok | deliverAck | brk | reconnect opens | helloLost | helloFail | peerRestart | senderRestart`
+  `emit | setRetained | fetchSend | deliver ok | deliverAck | brk | reconnect opens mid | helloLost | helloFail | peerRestart | senderRestart`
   — unbounded events, unbounded breaks (also during the handshake: `helloLost` = R processed the Hello, the answer is lost;
-  `helloFail` = the Hello never arrived; `reconnect false` = the stream cannot be opened after the handshake), any interleaving.
+  `helloFail` = the Hello never arrived; `reconnect false` = the stream cannot be opened after the handshake; `mid` = events that concurrently running hooks queue
+  inside a clean start, between `queue.clear()` and the locked snapshot of the local topics), any interleaving.
   The end-to-end run of the real loops is stream `fedsim`, whose oracle executes this very transition system.
 
   The theorems are about the protocol AS IT IS SINCE 086aedd (`fixed = true`: `peer.synced`, `peer.ackFloor`).  For the code
@@ -195,14 +196,19 @@ theorem resync_restores (cap : Nat) (st st1 : St τ μ) (h : Reachable true cap 
   have hq := inv_quiescent h4 h3
   exact ⟨hna, (hello_clean_of_unaligned hna).1, ls, st2, h1, h2, h3, hq.1, hq.2.1, fun t => by rw [← h5]; exact hq.2.2 t⟩
 
-omit [DecidableEq τ] in
-/-- what a clean start enqueues: exactly one Subscribe per local topic and one Message per retained message, ids from 0 -/
-theorem clean_start_resyncs (s : Sender τ μ) :
-    (helloS s true 0).hist = s.topics.map PBody.sub ++ s.retained.map PBody.msg ∧
-    (helloS s true 0).q.items = tagged 0 (helloS s true 0).hist := by
-  obtain ⟨h1, _, h3, h4, _⟩ := helloS_clean s
-  refine ⟨h1, ?_⟩
-  simp [EQ.items, h3, h4]
+/-- what a clean start leaves in the queue: the events hooks queued after `clear()` (none is lost), then exactly one Subscribe per
+    local topic — of the topic set INCLUDING those hooks' effects — and one Message per retained message; ids from 0.
+    A subscribe/unsubscribe racing with the resynchronisation is therefore either in the snapshot or queued, never dropped. -/
+theorem clean_start_resyncs (s : Sender τ μ) (mid : List (PBody τ μ)) :
+    (helloS s true 0 mid).topics = mid.foldl applyView s.topics ∧
+    (helloS s true 0 mid).hist = mid ++ ((helloS s true 0 mid).topics.map PBody.sub ++ s.retained.map PBody.msg) ∧
+    (helloS s true 0 mid).q.items = tagged 0 (helloS s true 0 mid).hist ∧
+    (∀ t, t ∈ view (helloS s true 0 mid).hist ↔ t ∈ (helloS s true 0 mid).topics) := by
+  obtain ⟨h1, _, h3, h4, _, h6, _⟩ := helloS_clean s mid
+  refine ⟨h6, by rw [h1, h6]; rfl, by simp [EQ.items, h3, h4], ?_⟩
+  intro t
+  rw [h1, h6]
+  exact view_mid_syncBodies _ _ _ t
 
 /-! ## 4. `localSubStore`: exact reference counts, events exactly on the 0→1 and 1→0 edges
 
@@ -299,14 +305,20 @@ theorem hook_event_reaches_every_peer (qs : List (String × EQ Body)) (b : Body)
 
 /-- a run with a break between application and ack, a re-send that is recognised as duplicate, ending quiescent -/
 example :
-    (run true 100 ([.reconnect true, .fetchSend, .deliver false, .reconnect true, .emit (.unsub 7), .fetchSend, .deliver true,
+    (run true 100 ([.reconnect true [], .fetchSend, .deliver false, .reconnect true [], .emit (.unsub 7), .fetchSend, .deliver true,
                .deliver true, .deliver true, .deliverAck] : List (Label Nat Nat)) (init [7, 8] [])).map
       (fun st => (st.r.applied, st.r.subs, st.s.topics, st.r.sess.map (·.next), st.s.q.items.map (·.id), st.c.up.length)) =
     some ([.sub 7, .sub 8, .unsub 7], [8], [8], some 3, [1, 2], 0) := rfl
 
+/-- a subscription made by another client inside the clean start (after `clear()`): queued in front of the snapshot, applied once -/
+example :
+    (run true 100 ([.reconnect true [.sub 9], .fetchSend, .deliver true, .deliver true, .deliver true] : List (Label Nat Nat))
+        (init [7] [])).map (fun st => (st.r.applied, st.r.subs, st.s.topics)) =
+    some ([.sub 9, .sub 7, .sub 9], [9, 7], [7, 9]) := rfl
+
 /-- first contact with the answer lost twice: the session id is rotated each time, the third Hello is a clean start -/
 example :
-    (run true 100 ([.helloLost, .helloLost, .reconnect true, .fetchSend, .deliver true] : List (Label Nat Nat)) (init [7] [])).map
+    (run true 100 ([.helloLost, .helloLost, .reconnect true [], .fetchSend, .deliver true] : List (Label Nat Nat)) (init [7] [])).map
       (fun st => (st.r.applied, st.s.sid, st.r.sess.map (·.id), st.s.synced)) =
     some ([.sub 7], 2, some 2, true) := rfl
 
